@@ -33,9 +33,8 @@ def run(rep):
                        "(helper, chain, failure choice, arguments) ops executed on a helper that compiled")
     rep.assumptions += [
         "values are abstract payloads (0 = the zero value of the type); error identity is observed by comparing error objects",
-        "Join (and join of fmap): when the LAST stage f itself fails, its own non-error results are passed on unchanged "
-        "(`return f()`); the zero-value clause is checked for failures of every earlier stage. Under the stricter reading "
-        "(zero values also beside f's own error) deriveJoin would differ for an f that returns non-zero values with its error",
+"the specification is the property text also for the LAST stage: zero values beside whichever error comes first; failing "
+        "stages of the corpus always return NON-zero values beside their error (every position, also the only stage)",
         "'exactly once' for compose and toerror means once per invocation of the returned function (building it evaluates nothing); "
         "for fmap's error form with a multi-result f it means once, before deriveFmap returns, however often the returned function is invoked",
         "successful Traverse returns a non-nil slice also for a nil or empty list (what `make` gives): model and specification follow the code there, and nil-ness is observed",
